@@ -1497,6 +1497,9 @@ class AstEval:
         if arg.value is not None:
             rhs = await self.aeval(arg.value)
             await self.recurse_assign(arg.target, rhs)
+        if self.curr_func is not None:
+            # annotations are never evaluated or stored in function scopes
+            return
         if isinstance(arg.target, ast.Name) and arg.annotation:
             annotation = await self.aeval(arg.annotation)
             self.sym_table.setdefault("__annotations__", {})[arg.target.id] = annotation
